@@ -36,6 +36,7 @@ def plan(tier):
 def required(tier):
     return {
         "keyword.modular_grammars": 30,
+        "literal.case_only_pair": 30,
         "keyword.precomputed_table": 30,
         "nontrivial": 3000 if tier == "quick" else 30000,
         "literal.grammars": 300,
@@ -109,6 +110,14 @@ def literal_case(ctx):
         t = gen_text(rng)
         if t not in texts:
             texts.append(t)
+    if rng.random() < 0.15:
+        # two terminals whose texts differ in letter case only: different literals
+        for i, t in enumerate(texts):
+            sw = t.swapcase()
+            if sw != t and sw not in texts:
+                texts[(i + 1) % len(texts)] = sw
+                ctx.count("literal.case_only_pair")
+                break
     if rng.random() < 0.08:
         texts[0] = rng.choice(["t1", "EMPTY", "S", "A"])  # name of another symbol
     names = ["t%d" % i for i in range(k)]
@@ -151,8 +160,9 @@ def literal_case(ctx):
     case0 = {"texts": texts, "declared": render(False), "inline": render(True), "g": g.to_json(), "kind": "literal"}
     if "declared" in errs:
         e = errs["declared"][1]
-        # equal texts up to case etc. are legitimately refused; LR conflicts are not this property's business
-        if isinstance(e, parglare.GrammarError) and "match the same string" in str(e):
+        # equal texts are legitimately refused (these grammars are case sensitive: texts that differ
+        # in letter case are different literals); LR conflicts are not this property's business
+        if isinstance(e, parglare.GrammarError) and "match the same string" in str(e) and len(set(tdefs[n].text for n in g.terms)) < len(g.terms):
             return
         if isinstance(e, (parglare.exceptions.SRConflicts, parglare.exceptions.RRConflicts)):
             ctx.count("literal.lr_conflicts_skipped")
